@@ -54,7 +54,8 @@ class SendSock:
                 self._pinned = memoryview(data)
             except TypeError:
                 self._pinned = data
-            return False, None
+            # default: an ordinary preemption point; `slow_send`: the other threads do run while the kernel copies
+            return False, (None if P.get("slow_send") else "runnable")
         mv, self._pinned = self._pinned, None
         try:
             return True, self.send(bytes(mv))
@@ -285,6 +286,8 @@ def specs(tier, seed, carve):
         scen["1x3"] = [["plain", "avp", "plain"]]
     out.append(dict(id="fifo/1x2+second/p1", fn="fifo", params={"producers": [["plain", "avp"]], "slots": 1, "maxstep": 90, "ks": [-1, 0, 1, 20, 21], "second": True}, timeout=1500,
                     bound="as 1x2, plus a second connection with buffered bytes that is writable in the same select rounds and whose first send fails softly; 1 preemption"))
+    out.append(dict(id="fifo/1x2/p1/slow_send", fn="fifo", params={"producers": [["plain", "avp"]], "slots": 1, "maxstep": 90, "ks": [-1, 0, 1, 20, 21], "slow_send": True, "lo": 0, "hi": 90}, timeout=1500,
+                    bound="as fifo/1x2/p1, but every send lets the other threads run before it returns (the GIL is released while the kernel copies)"))
     kmap = [65535, 65536, 65537, 70000, 102400, 1]
     out.append(dict(id="fifo/1x3big/p1", fn="fifo", params={"producers": [["plain", "big", "avp"]], "slots": 1, "maxstep": 90, "ks": list(range(len(kmap))), "kmap": kmap, "lo": 0, "hi": 90}, timeout=1500,
                     bound="a 100 KB message between two short ones; the first send accepts 65535 / 65536 / 65537 / 70000 / 102400 / 1 bytes, the rest is written in full; 1 preemption"))
